@@ -156,7 +156,7 @@ func invalsOnWire(b []byte) []invalRec {
 	return out
 }
 
-const waitMax = 8 * time.Second
+const waitMax = 6 * time.Second // only quoted in messages: the waits use psx.Await (adaptive)
 
 func runOption(c Case) (res obs.Result) {
 	res.Kind = "option-" + c.End
@@ -228,7 +228,7 @@ func runOption(c Case) (res obs.Result) {
 	}
 	want := invalsOnWire(func() []byte {
 		// the final nil is delivered by the clean-up of the reader goroutine: wait for it
-		psx.WaitFor(waitMax, func() bool {
+		psx.Await(func() bool {
 			mu.Lock()
 			defer mu.Unlock()
 			return len(cb) > 0 && cb[len(cb)-1].null && len(cb) >= len(invalsOnWire(tee.Bytes()))+1
@@ -399,7 +399,7 @@ func runHooks(c Case) (res obs.Result) {
 	// drain every hook channel
 	bad := []string{}
 	for _, h := range hooks {
-		dl := time.After(waitMax)
+		dl := time.After(psx.Patience())
 	loop:
 		for {
 			select {
@@ -436,7 +436,7 @@ func runHooks(c Case) (res obs.Result) {
 	}
 	if (c.End == "kill" || (c.End == "close" && cleanupWon)) && last != nil && last.hasInv {
 		// the hook set installed when the connection was lost gets a final nil right after the error
-		psx.WaitFor(waitMax, func() bool {
+		psx.Await(func() bool {
 			mu.Lock()
 			defer mu.Unlock()
 			return len(last.inval) > 0 && last.inval[len(last.inval)-1].null
